@@ -376,6 +376,18 @@ pub fn drive_srv(ctx: &mut Ctx, rng: &mut Rng) {
     let mut cases: Vec<Option<Vec<u8>>> = vec![None, Some(srv.clone())];
     for bit in 0..256 { let mut s = srv.clone(); s[bit / 8] ^= 1 << (bit % 8); cases.push(Some(s)); }
     for l in [0usize, 4, 28, 36, 64] { let mut s = srv.clone(); s.resize(l, 0xaa); cases.push(Some(s)); }
+    // two bytes changed so that their differences cancel under XOR (the same bit in two bytes), sum to zero, or swap
+    for k in 0..120usize {
+        let (i, j) = (k % 32, (k * 7 + 1 + k / 32) % 32);
+        if i == j { continue; }
+        let mut s = srv.clone();
+        match k % 3 {
+            0 => { let bit = 1u8 << (k % 8); s[i] ^= bit; s[j] ^= bit; }
+            1 => { s[i] = s[i].wrapping_add(1 + (k % 5) as u8); s[j] = s[j].wrapping_sub(1 + (k % 5) as u8); }
+            _ => { s.swap(i, j); }
+        }
+        if s != srv { cases.push(Some(s)); }
+    }
     cases.push(Some(interp::srv_of_pk(&interp::pk_of_seed(&[7u8; 32]))));   // another server's value
     // long version lists (beyond the enumerated lengths): draft-13 first, second, fourth, fifth, last, absent, for list lengths
     // around the widths a narrowed counter wraps on
@@ -471,6 +483,21 @@ pub fn drive_bursts(ctx: &mut Ctx, rng: &mut Rng, thorough: bool) {
                             let nonce = rng.bytes(32);
                             proto::build_request(Proto::Ietf, &nonce, size, lists[rng.below(6) as usize], if ws { Some(&srv) } else { None })
                         } else { valid_request(rng, Proto::Ietf, size, if ws { Some(&srv) } else { None }) }
+                    }
+                    16 if rng.chance(1, 2) => {
+                        // a valid request that carries extra fields with known tags (in wire order), one of them as long as a
+                        // nonce and sorting before NONC: the server must still find and echo the NONC field
+                        let p = if rng.chance(1, 2) { Proto::Google } else { Proto::Ietf };
+                        let nl = if p == Proto::Google { 64 } else { 32 };
+                        let nonce = rng.bytes(nl);
+                        let mut fields: Vec<(u64, Vec<u8>)> = vec![(rc::SIG, rng.bytes(nl)), (rc::NONC, nonce), (rc::MAXT, rng.bytes(8)), (rc::ZZZZ, vec![])];
+                        if p == Proto::Ietf { fields.push((rc::VER, proto::VER_DRAFT13.to_le_bytes().to_vec())); }
+                        fields.sort_by_key(|f| f.0);
+                        let base = rc::ref_encode(&fields).len() + if p == Proto::Ietf { 12 } else { 0 };
+                        let zi = fields.iter().position(|f| f.0 == rc::ZZZZ).unwrap();
+                        fields[zi].1 = vec![0u8; size.saturating_sub(base)];
+                        let enc = rc::ref_encode(&fields);
+                        if p == Proto::Ietf { rc::ref_frame(&enc) } else { enc }
                     }
                     16 => proto::build_request(Proto::Google, &shared_nonce_g, size, &[], None),              // identical nonces
                     17 => {   // IETF requests that share a NONCE: byte-identical ones, and ones that differ elsewhere (size, SRV) -
@@ -794,6 +821,9 @@ pub fn drive_cfgleak(ctx: &mut Ctx, rng: &mut Rng, workdir: &str) {
             format!("interface:127.0.0.1\nport:8686\nseed:{}\n", sh),
             format!("- interface: 127.0.0.1\n- port: 8686\n- seed: {}\n", sh),
             format!("{}\n", sh),
+            // a seed written in upper / mixed case (accepted: hexadecimal is case-insensitive)
+            format!("interface: 127.0.0.1\nport: 8686\nseed: {}\n", sh.to_uppercase()),
+            format!("interface: 127.0.0.1\nport: 8686\nseed: {}\n", sh.chars().enumerate().map(|(i, c)| if i % 2 == 0 { c.to_ascii_uppercase() } else { c }).collect::<String>()),
             format!("seed: [{}]\nport: 8686\ninterface: 127.0.0.1\n", sh),
             format!("seed: {{value: {}}}\nport: 8686\ninterface: 127.0.0.1\n", sh),
         ];
@@ -848,6 +878,34 @@ pub fn drive_health(ctx: &mut Ctx, rng: &mut Rng, path: &str, thorough: bool) ->
         let during: Vec<usize> = (0..rng.below(6)).map(|_| rng.below(pre as u64 + 1) as usize).collect();
         let kinds: Vec<bool> = (0..pre + during.len()).map(|_| k % 2 == 1 && rng.chance(1, 4)).collect();
         schedules.push((pre, during, kinds));
+    }
+    // a backlog of more datagrams than one wake-up handles (batch_size 1 and 2) TOGETHER with health-check connections: the
+    // readiness events that arrive in the same poll as the datagrams must all be served
+    for batch in [1u8, 2] {
+        let mut c = cfg(batch, 0, 0, 40);
+        c.hc = true;
+        if let Some(mut rig) = new_section(ctx, c) {
+            for round in 0..3usize {
+                let n = 17 * batch as usize + 3 + round;
+                let sends: Vec<(usize, Vec<u8>)> = (0..n).map(|i| (i % 40, valid_request(rng, if i % 2 == 0 { Proto::Google } else { Proto::Ietf }, 1024, None))).collect();
+                let _ = rig.drain();
+                let t0 = rig::now();
+                for (s_, b) in &sends { rig.send(*s_, b); }
+                rig.hc_connect(3 + round);
+                let panic = rig.pump_until_idle();
+                let t1 = rig::now();
+                let (conns, ok200) = rig.hc_collect();
+                let round_sent: Vec<Sent> = sends.into_iter().enumerate().map(|(i, (s_, b))| Sent { id: i + 1, sock: s_, features: proto::request_features(&b, &rig.srv), nonce: proto::request_nonce(&b), bytes: b, t_sent_ns: t0 }).collect();
+                ctx.emit(json!({"ev": "round"}));
+                for s_ in &round_sent { ctx.emit(json!({"ev": "arrive", "id": s_.id, "sock": s_.sock, "f": s_.features})); }
+                ctx.emit(json!({"ev": "pumped", "panic": panic.is_some(), "panic_msg": panic.unwrap_or_default(), "wedged": false, "unconsumed": 0}));
+                let _ = rig.take_hooks();
+                for (sock, bytes) in rig.drain() { let e = rig.reply_event(sock, &bytes, &round_sent, t0, t1, false); ctx.emit(e); ctx.replies += 1; }
+                ctx.emit(json!({"ev": "round_end"}));
+                ctx.emit(json!({"ev": "hc_round", "conns": 3 + round, "connected": conns, "ok200": ok200}));
+                ctx.rounds += 1;
+            }
+        }
     }
     let mut c = cfg(8, 0, 0, 4);
     c.hc = true;
